@@ -20,7 +20,7 @@ RULE = ('Stream "forward": generated schedulable specs, sparse and fractional ca
         '"removal" (balance off, metamorphic): deleting whole root-level subtrees disjoint from the prerequisite closure of '
         'a task t (plus ancestors) leaves t\'s start and end unchanged.  Non-trivial = a leaf starts on a day partially '
         'booked by another task, or its release day has zero capacity / a removal case that really deletes >=1 task and '
-        'keeps a task with work; distinct = distinct case.')
+        'keeps a task with work; distinct = distinct case.  Stream "crowded": all tasks on one resource, balance on, min_start values drawn from three days so that late-released tasks collide.')
 ASSUMPTIONS = ['the day-fraction formulas are only asserted with balancing on (with balancing off "booked before the task" is ambiguous)',
                'calendar bounds day-aligned; fixed starts are midnights']
 
@@ -99,5 +99,8 @@ def streams(tier):
     n = 8 if tier == 'quick' else 12
     return [Stream('forward', check, strategy=lambda: sched.fwd_case(max_tasks=n, min_tasks=1),
                    examples={'quick': 3200, 'thorough': 64000}),
+            Stream('crowded', check, strategy=lambda: sched.fwd_case(max_tasks=n, min_tasks=3, palette_max=1, balance=True,
+                                                                     min_start_pool=[2, 3, 9], min_start_rate=2),
+                   examples={'quick': 3200, 'thorough': 40000}),
             Stream('removal', check_removal, strategy=lambda: removal_case(max_tasks=n),
                    examples={'quick': 1200, 'thorough': 24000})]
